@@ -1037,6 +1037,13 @@ package dig
 //@   allocates plain
 //@   ensures[C09:a-group-has-a-name,C14:a-group-has-a-name] err == nil ==> g.Name != ""
 //@   loop range components[1:] #1: invariant g.Name != ""
+//@   let comps = ret(Split_1, 0)
+//@   ensures[C14:an-unknown-group-option-is-an-error,C10:an-unknown-group-option-is-an-error] err == nil ==> (forall i int :: 1 <= i && i < len(comps) ==> comps[i] == "flatten" || comps[i] == "soft")
+//@   ensures[C11:soft-exactly-when-the-tag-says-so,C14:soft-exactly-when-the-tag-says-so] err == nil ==> g.Soft == (exists i int :: 1 <= i && i < len(comps) && comps[i] == "soft")
+//@   ensures[C10:flatten-exactly-when-the-tag-says-so,C14:flatten-exactly-when-the-tag-says-so] err == nil ==> g.Flatten == (exists i int :: 1 <= i && i < len(comps) && comps[i] == "flatten")
+//@   ensures[C09:the-group-name-is-the-first-component] err == nil ==> g.Name == comps[0]
+//@   loop range components[1:] #1: invariant[C14:options-so-far-are-known] components == comps && g.Name == comps[0] && (forall i int :: 1 <= i && i < $i + 1 ==> comps[i] == "flatten" || comps[i] == "soft")
+//@        && g.Soft == (exists i int :: 1 <= i && i < $i + 1 && comps[i] == "soft") && g.Flatten == (exists i int :: 1 <= i && i < $i + 1 && comps[i] == "flatten")
 
 // what the result parsers guarantee about one result
 //@ pure func okResult(r Any) Bool = r != nil && !is(r, resultList)
